@@ -106,6 +106,7 @@ Theorem c14_source_shape :
    ("dq-compares", "Name+Version");
    ("dq-marks", "every package of the architecture's own resolver (nameMap), by package object");
    ("dq-cache-key", "concatenation of the map's values, sorted by Name(), compared by index object");
+   ("dq-cache-node", "find:entry-with-an-equal-grouping; equal:same-architectures-and-the-same-index-objects-in-the-same-order; fill:appends-an-entry-with-a-copy-of-the-grouping");
    ("dq-cache-hit", "a clone of the stored set");
    ("dq-cache-miss", "disqualifyDifference of the call's own map, stored under the key")].
 Proof. reflexivity. Qed.
